@@ -542,12 +542,12 @@ func (h *vfH) list(handler string, r *sftp.Request) (sftp.ListerAt, error) {
 			c.Err = "not exist"
 			return nil, os.ErrNotExist
 		}
+		if r.Method == "Readlink" && f.link == "" {
+			c.Err = "not a link"
+			return nil, fmt.Errorf("not a symlink")
+		}
 		o := h.newObj("statlister", r.Filepath, f, r)
 		if r.Method == "Readlink" {
-			if f.link == "" {
-				c.Err = "not a link"
-				return nil, fmt.Errorf("not a symlink")
-			}
 			o.list = []os.FileInfo{vfMemInfo{name: f.link, mode: f.mode}}
 		} else {
 			o.list = []os.FileInfo{h.info(path.Base(r.Filepath), f)}
